@@ -70,6 +70,7 @@ pub fn registry() -> Vec<PartEntry> {
         part!("C11", rt::C11Exec),
         part!("C11", rtchan::C11Uni),
         part!("C11", rtchan::C11Multi),
+        part!("C11", rtlong::C11Long),
         part!("C12", rt::C12Exec),
         part!("C12", rtchan::C12Uni),
         part!("C12", rtchan::C12Multi),
